@@ -297,6 +297,10 @@ fn dce_expr(expr: ast::Expr) -> ast::Expr {
             expr: Box::new(dce_expr(*expr)),
             ty,
         },
+        ast::Expr::ClippedSlice { slice, ty } => ast::Expr::ClippedSlice {
+            slice: Box::new(dce_expr(*slice)),
+            ty,
+        },
         ast::Expr::StructLiteral { fields, ty } => ast::Expr::StructLiteral {
             fields: fields.into_iter().map(|(n, e)| (n, dce_expr(e))).collect(),
             ty,
@@ -412,6 +416,9 @@ fn vars_used_in_expr(e: &ast::Expr) -> HashSet<String> {
         }
         ast::Expr::Cast { expr, .. } => {
             s.extend(vars_used_in_expr(expr));
+        }
+        ast::Expr::ClippedSlice { slice, .. } => {
+            s.extend(vars_used_in_expr(slice));
         }
         ast::Expr::StructLiteral { fields, .. } => {
             for (_, e) in fields {
@@ -675,6 +682,7 @@ fn expr_has_side_effects(e: &ast::Expr) -> bool {
         // would let a program run past the point where it must stop.
         ast::Expr::Index { .. } | ast::Expr::Cast { .. } => true,
         ast::Expr::UnaryOp { expr, .. } => expr_has_side_effects(expr),
+        ast::Expr::ClippedSlice { slice, .. } => expr_has_side_effects(slice),
         ast::Expr::BinaryOp { op, lhs, rhs, ty } => {
             (matches!(op, ast::GoBinaryOp::Div) && is_integer_type(ty))
                 || expr_has_side_effects(lhs)
@@ -909,6 +917,7 @@ fn collect_called_in_expr(
             collect_called_in_expr(index, calls, fn_names);
         }
         ast::Expr::Cast { expr, .. } => collect_called_in_expr(expr, calls, fn_names),
+        ast::Expr::ClippedSlice { slice, .. } => collect_called_in_expr(slice, calls, fn_names),
         ast::Expr::StructLiteral { fields, .. } => {
             for (_, e) in fields {
                 collect_called_in_expr(e, calls, fn_names);
@@ -1125,6 +1134,7 @@ fn collect_packages_in_expr(
             collect_packages_in_expr(index, imports, used);
         }
         ast::Expr::Cast { expr, .. } => collect_packages_in_expr(expr, imports, used),
+        ast::Expr::ClippedSlice { slice, .. } => collect_packages_in_expr(slice, imports, used),
         ast::Expr::StructLiteral { fields, .. } => {
             for (_, e) in fields {
                 collect_packages_in_expr(e, imports, used);
